@@ -1,24 +1,30 @@
 /-
 Driver for stream `vm` (C12): the accounting model executes the instruction stream of the real VM.
   case <k>                                   -> case <k>          (state reset)
-  load                                       -> NONE 0 0 1 0      (entry script loaded)
-  i <NAME> <args…> [|T <k> <c>] [!]          -> <NONE|HALT> <refs> <reach> <depth> <reachG> | FAULT
+  load                                       -> NONE 0 0 1 0 0    (entry script loaded)
+  gas <limit picoGAS|-1> <base>              -> echo             (gas limit and price base of the case)
+  (TRY / TRY_L carry <hasCatch> <hasFinally>; `|T k c` is what the real VM did: the model computes its own
+   unwinding outcome from its try stacks and answers `unwind-mismatch(…)` if they differ)
+  i <NAME> <args…> [|T <k> <c>] [!]          -> <NONE|HALT> <refs> <reach> <depth> <reachG> <datoshi> | FAULT
   e <obs…>                                   -> <obs…>            (echo: the case left the modelled set)
   chk <hex>                                  -> ok | bad          (Model/ScriptCheck.isScriptCorrect = scparser.IsScriptCorrect)
 `refs` is the model of the implementation's counter (as vm.go updates it), `reach` the number of
 items found by walking the model state, `depth` the invocation stack depth. The arguments of an
 instruction are what the harness read off the real state before the step (counts, positions);
-`!` marks a FAULT the model cannot see (types, ranges, gas); a FAULT because the counter exceeds
-2048 is predicted by the model itself.
+`!` marks a FAULT the model cannot see (types, ranges); a FAULT because the counter exceeds 2048, the
+invocation depth 1024, the gas limit is reached or a map key is a compound is predicted by the model itself
+(`gasStep`: the opcode price from the regenerated table is charged and compared before the instruction).
 -/
 import NeoModel.Base.Proto
 import NeoModel.Base.Hex
 import NeoModel.Model.VmAcct
+import NeoModel.Model.VmAcct.GasMachine
+import NeoModel.Model.VmAcct.TryMachine
 import NeoModel.Model.ScriptCheck
 open NeoModel NeoModel.VmAcct
 
 structure DState where
-  s : St := St.init
+  t : TSt := {}
   lk : List Item := []      -- ghost list: items of the evaluation stacks dropped by exception unwinding
   dead : Bool := false
 
@@ -93,7 +99,7 @@ def opOf (name : String) (a : List String) : Option Op :=
     | some "push" => generic 0 1
     | some "pop" => generic 1 0
     | some "mkarray" => some (.s .mkarray)
-    | _ => some .nop
+    | _ => some .nop                                     -- burn (AddDatoshi), unknown
   | _ => none
 
 /-- The model's `reach` (Model/VmAcct/Heap.lean: `walk` keeps the visited compounds in a list, which
@@ -133,9 +139,21 @@ def reachObs (s : St) : String := reachObsFrom s.c.heap s.roots
 
 /-- `<state> <refs> <reach> <depth> <reachG>`: reachG = what a walk from the roots AND from the ghost
 list finds (theorem `refs_exact_unwind`: equals refs as long as no cycle was built) -/
-def obs (s : St) (lk : List Item) : String :=
+def obs (g : GSt) (lk : List Item) : String :=
+  let s := g.s
   let rg := if lk.isEmpty then reachObs s else reachObsFrom s.c.heap (s.roots ++ lk)
-  s!"{if s.halted then "HALT" else "NONE"} {s.c.refs} {reachObs s} {s.depth} {rg}"
+  s!"{if s.halted then "HALT" else "NONE"} {s.c.refs} {reachObs s} {s.depth} {rg} {g.datoshi}"
+
+/-- TRY / TRY_L come with "which handler offsets are present", ENDTRY* is recognised by name -/
+def topOf (name : String) (a : List String) : TOp :=
+  match name with
+  | "TRY" | "TRY_L" => .try_ (a[0]? == some "1") (a[1]? == some "1")
+  | "ENDTRY" | "ENDTRY_L" => .endtry
+  | _ => .other
+
+/-- what the SYSCALL handler of the harness charges (`SYSCALL burn <picoGAS>`) -/
+def burnOf (name : String) (a : List String) : Nat :=
+  if name == "SYSCALL" && a[0]? == some "burn" then natArg a 1 else 0
 
 /-- splits `args… [|T k c] [!]` -/
 def splitTail (ts : List String) : List String × Option (Nat × Bool) × Bool :=
@@ -148,7 +166,11 @@ def splitTail (ts : List String) : List String × Option (Nat × Bool) × Bool :
 def stepD (d : DState) (ts : List String) : DState × String :=
   match ts with
   | "case" :: _ => ({}, " ".intercalate ts)
-  | ["load"] => (d, obs d.s d.lk)
+  | ["load"] => (d, obs d.t.g d.lk)
+  | ["gas", l, b] =>
+    -- `gas <limit in picoGAS | -1> <price base>`: the configuration of the case (echoed)
+    let lim : Option Nat := match l.toInt? with | some n => if n < 0 then none else some n.toNat | none => none
+    ({ d with t := { d.t with g := { d.t.g with limit := lim, base := (b.toNat?).getD 0 } } }, " ".intercalate ts)
   | "e" :: rest => (d, " ".intercalate rest)
   | ["chk", h] =>
     match Hex.decode h with
@@ -160,11 +182,15 @@ def stepD (d : DState) (ts : List String) : DState × String :=
     match opOf name args with
     | none => ({ d with dead := true }, "unmodelled")
     | some op =>
-      match step d.s op unw ext with
+      match tstep d.t (byteOfName name) op (topOf name args) (burnOf name args) ext with
       | none => ({ d with dead := true }, "FAULT")
-      | some s' =>
-        let lk' := if unw.isNone then d.lk else d.lk ++ droppedBy d.s op unw
-        ({ d with s := s', lk := lk' }, obs s' lk')
+      | some (t', unwM) =>
+        -- the unwinding outcome computed by the model (findHandler) against the one read off the real VM
+        if unwM != unw then
+          ({ d with dead := true }, s!"unwind-mismatch(model {repr unwM}, real {repr unw})")
+        else
+          let lk' := if unwM.isNone then d.lk else d.lk ++ droppedBy d.t.g.s op unwM
+          ({ d with t := t', lk := lk' }, obs t'.g lk')
   | _ => (d, "bad-op")
 
 def main : IO Unit := Proto.run ({} : DState) stepD
